@@ -48,6 +48,10 @@ type CtlCase struct {
 	Owner     []string `json:"owner"`     // owner request sequence
 	Kind      string   `json:"intruder"`  // key of intruderKinds; "" = only build the state
 	Req       string   `json:"request"`
+	// PairAt > 0: the intruder connects after PairAt owner requests and sends OPTIONS with the session id
+	// (allowed by design from the same address while the session is not pinned), keeps that connection,
+	// and sends Req on it after the whole owner sequence
+	PairAt int `json:"pair_after,omitempty"`
 }
 
 func (c CtlCase) kindClass() string {
@@ -91,9 +95,15 @@ type ctlWorld struct {
 	// refuse makes the application refuse SETUP with 404 (leaves a session in state initial)
 	refuse bool
 	gotRTP atomic.Int64
+	// early intruder (PairAt)
+	in       *sysx.Peer
+	inLogLen int
 }
 
 func (w *ctlWorld) close() {
+	if w.in != nil {
+		w.in.Close()
+	}
 	if w.owner != nil {
 		w.owner.Close()
 	}
@@ -159,7 +169,22 @@ func buildState(c CtlCase) (w *ctlWorld, ok bool, err error) {
 	if err != nil {
 		return w, false, herr("dial: %v", err)
 	}
-	for _, step := range c.Owner {
+	for i, step := range c.Owner {
+		if c.PairAt > 0 && i == c.PairAt {
+			if w.sid == "" {
+				return w, false, nil
+			}
+			w.inLogLen = len(w.env.Log.Snapshot())
+			w.in, err = w.env.Dial(intruderKinds[c.Kind])
+			if err != nil {
+				return w, false, herr("intruder dial: %v", err)
+			}
+			res, e := w.in.Do(&base.Request{Method: base.Options, URL: sysx.MustURL(ctlURL), Header: base.Header{"Session": base.HeaderValue{w.sid}}})
+			w.trans++
+			if e != nil || res.StatusCode != base.StatusOK {
+				return w, false, nil // pairing refused: not a reachable situation
+			}
+		}
 		recording := false
 		if w.ss != nil {
 			st := w.ss.State()
@@ -321,6 +346,9 @@ type ctlObs struct {
 }
 
 func (c CtlCase) sig(state, failure string) string {
+	if c.PairAt > 0 {
+		return fmt.Sprintf("control/%s-paired-before-streaming/%s-state/%s/%s", c.kindClass(), state, c.Req, failure)
+	}
 	return fmt.Sprintf("control/%s/%s-state/%s/%s", c.kindClass(), state, c.Req, failure)
 }
 
@@ -344,12 +372,18 @@ func execCtl(c CtlCase) (o *ctlObs, reachable bool, f *failure, err error) {
 	}
 	ownerConns := o.Before.conns
 	logLen := len(w.env.Log.Snapshot())
+	connLogLen := logLen
 
-	in, err := w.env.Dial(intruderKinds[c.Kind])
-	if err != nil {
-		return o, true, nil, herr("intruder dial: %v", err)
+	in := w.in
+	if in == nil {
+		in, err = w.env.Dial(intruderKinds[c.Kind])
+		if err != nil {
+			return o, true, nil, herr("intruder dial: %v", err)
+		}
+		defer in.Close()
+	} else {
+		connLogLen = w.inLogLen
 	}
-	defer in.Close()
 	res, e := in.Do(intruderRequest(c.Req, c.Transport, w.sid, o.Before))
 	w.trans++
 	if e != nil {
@@ -364,7 +398,7 @@ func execCtl(c CtlCase) (o *ctlObs, reachable bool, f *failure, err error) {
 
 	// the intruder's ServerConn: the connection opened after the snapshot
 	var inConn *gortsplib.ServerConn
-	for _, e := range w.env.Log.Snapshot()[logLen:] {
+	for _, e := range w.env.Log.Snapshot()[connLogLen:] {
 		if e.Kind == "conn-open" {
 			inConn = e.Conn
 		}
@@ -372,10 +406,19 @@ func execCtl(c CtlCase) (o *ctlObs, reachable bool, f *failure, err error) {
 	if inConn == nil {
 		return o, true, nil, herr("intruder's connection not seen by the server")
 	}
+	if c.PairAt > 0 {
+		// the paired connection was attached to the session: the owner's set is the rest
+		ownerConns = nil
+		for _, sc := range o.Before.conns {
+			if sc != inConn {
+				ownerConns = append(ownerConns, sc)
+			}
+		}
+	}
 	// end the intruding connection and wait until the server has let go of it
 	in.Close()
 	if !sysx.WaitFor(func() bool {
-		for _, e := range w.env.Log.Snapshot()[logLen:] {
+		for _, e := range w.env.Log.Snapshot()[connLogLen:] {
 			if e.Kind == "conn-close" && e.Conn == inConn {
 				return true
 			}
